@@ -2,6 +2,7 @@
 
 W5   expandCellsToDensity / expandCellsByFactor write no Circuit member other than cellWidth_
 G15  each of those writes is edge-dominated by !cellIsFixed_[i] / !isFixed(i) on the same index
+SK   a binary search over the region map must use the key the map was sorted by
 G16  computeCellExpansion is const (writes nothing); per cell exactly one factor is pushed; on the fixed branch it is the
      literal 1; on the other branch it is a running maximum started at 1
 """
@@ -29,6 +30,7 @@ def run(ctx, rep, tier):
     prog, eff = ctx.prog, ctx.eff
     rep.rule("W5", "expansion functions write no Circuit member other than cellWidth_", 2)
     rep.rule("G15", "cellWidth_ writes edge-dominated by the movable test on the same index", 2)
+    rep.rule("SK", "binary searches over the congestion regions use the key the regions are sorted by", 1)
     rep.rule("G16", "computeCellExpansion: const, one factor per cell, 1 for fixed cells, running max from 1 otherwise", 3)
     trans = eff.transitive()
     for q in ("Circuit::expandCellsToDensity", "Circuit::expandCellsByFactor"):
@@ -70,6 +72,11 @@ def run(ctx, rep, tier):
             else:
                 rep.violation("G15", u.node, f, "cellWidth_[%s] written without a dominating movable test on that index" % pretty(idx),
                               "a fixed cell's width could change", key="%s|unguarded width write" % f.short)
+    # ---- SK ----
+    from .common import check_sort_keys
+    n = check_sort_keys(ctx, rep, "SK", [prog.func1(CQ + "Circuit::computeCellExpansion")])
+    if n == 0:
+        rep.holds("SK", "-", None, "computeCellExpansion performs no binary search (plain scan of the sorted region map)")
     # ---- G16 ----
     f = prog.func1(CQ + "Circuit::computeCellExpansion")
     tw = {w for w in trans[f.key]["writes"] if w.startswith(CQ + "Circuit::")}
